@@ -12,7 +12,9 @@ package scramblesuit
 import (
 	"bytes"
 	"encoding/base32"
+	"errors"
 	"fmt"
+	"io"
 	"net"
 	"os"
 	"sync"
@@ -98,6 +100,26 @@ type vf15Link struct {
 	wrote     []byte    // payload the client application has written
 	ctlNext   int       // first packet whose control effect has not been checked yet
 	samples   []int     // when the length distribution is steered: the lengths the next Write can sample
+
+	corruptEnd       int  // stream offset at which the modified packet ends
+	corruptDecidable bool // the receiver can decide once that packet has arrived completely
+}
+
+// setCorrupt records where the packet just queued with one inverted bit ends
+// and whether the modification is decidable as soon as the packet has arrived
+// completely: always for a flip in the MAC or the body (the header is intact,
+// so the length is known); for a flip in the header unless it turns a 0 into a
+// 1 in the total-length field and the new length is still legal (then the
+// receiver has to wait for total' - total more bytes, and an EOF instead is
+// indistinguishable from a connection cut inside a packet).
+func (l *vf15Link) setCorrupt(region refss.Region, bit, total int) {
+	l.corruptEnd = l.queued
+	l.corruptDecidable = true
+	if region == refss.RegionHeader && bit < 16 {
+		if t2 := total ^ (1 << uint(15-bit)); t2 > total && t2 <= refss.MaxPayload {
+			l.corruptDecidable = false
+		}
+	}
 }
 
 // steer narrows the client's length distribution to {v, v+1} for the next
@@ -337,6 +359,17 @@ func (l *vf15Link) checkDelivery(ctx string) string {
 	}
 	if err := l.ep.ReadErr(); err != nil && !l.corrupted {
 		return fmt.Sprintf("VIOL[c15-read-error]: %s: Read failed on an unmodified stream after %d bytes: %v", ctx, len(got), err)
+	}
+	if l.corrupted && l.corruptDecidable && l.corruptEnd > 0 && int(l.n.Released(wire.B)) >= l.corruptEnd && l.ep.SetupDone() && l.ep.SetupErr() == nil {
+		// the modified packet has arrived completely and the reader is parked (or
+		// has given up): the modification must have been reported, without any
+		// further traffic, and not as a clean end of stream
+		switch err := l.ep.ReadErr(); {
+		case err == nil:
+			return fmt.Sprintf("VIOL[c15-corruption-undetected]: %s: the packet with one inverted bit has arrived completely (%d of %d stream bytes released, it ends at %d), the client has delivered %d bytes and reports no error", ctx, l.n.Released(wire.B), l.queued, l.corruptEnd, len(got))
+		case errors.Is(err, io.EOF):
+			return fmt.Sprintf("VIOL[c15-corruption-undetected]: %s: the packet with one inverted bit has arrived completely (it ends at %d of %d stream bytes), the client has delivered %d bytes and reports a clean end of stream (%v) instead of the modification", ctx, l.corruptEnd, l.queued, len(got), err)
+		}
 	}
 	if l.intact() {
 		if a := l.arrived(); len(got) != a {
